@@ -211,3 +211,28 @@ def run(rep, tier):
                         "conditions %s): a target that has registered as a waiter but is still 'active' (not yet switched off its worker) is never resumed"
                         % (f.qname, byp, conds[:3]), path=[{"block": b} for b in byp])
 
+
+    # ---- R5 (continued): pika::this_thread::suspend (used by thread::join and the legacy waiters) switches out
+    # exactly once with the requested state on every path that gets past the first interruption point
+    TH2 = facts(rep, lib("threading_base", "src/thread_helpers.cpp"), [r"^pika::this_thread::suspend$"])
+    sus = [f for f in TH2.find(r"^pika::this_thread::suspend$") if f.parent == -1 and f.file.endswith("thread_helpers.cpp") and any(p_["name"] == "state" for p_ in f.params)]
+    if not sus:
+        raise AnalysisBroken("pika::this_thread::suspend(state, nextid, ...) not found")
+    for f in sus:
+        isy = lambda e: e.get("k") == "call" and callee_short(e) == "yield" and "self" in P(e.get("recv"))
+        ys = [(b, i, e) for b, i, e in f.all_events() if isy(e)]
+        cf = CountFlow(f, lambda ev, pos: 1 if isy(ev) else 0)
+        argok = ys and all(strip(e["args"][0]).get("k") == "construct" and strip(e["args"][0]).get("args") and P(strip(e["args"][0])["args"][0]) == "state" for _, _, e in ys)
+        # returns that happen after a yield-free path are the two 'if (ec) return' exits of the first interruption point
+        ffs = FactFlow(f)
+        early_bad = []
+        for (b, i), st in cf.ret_states.items():
+            if 0 in st:
+                fb = ffs.before.get((b, i)) or frozenset()
+                if not any(t and a == "ec" for a, t in fb):
+                    early_bad.append(loc_of(f.blocks[b].events[i]))
+        if argok and not early_bad and not any(x for x in cf.exits if x not in (0, 1)) and 1 in cf.exits:
+            rep.ok("C02.R5", f, "this_thread::suspend yields exactly once with the requested state (%d yield sites); a yield-free return happens only with ec set" % len(ys), sites=len(ys))
+        else:
+            rep.bad("C02.R5", f, f.loc, "suspend-yield", "this_thread::suspend must switch out exactly once with the requested state on every path past the interruption "
+                    "point (yield counts at exit: %s, requested state forwarded: %s, yield-free returns without error: %s): the caller believes it has waited" % (sorted(cf.exits), bool(argok), early_bad))
